@@ -18,6 +18,7 @@ CLAIMED = {
  "C05": ("2.C05", "Region algebra used by frame composition (intersection, merge, contains, translate) decided against set semantics for all rectangles within the format's coordinate limits; blend kernels: see evidence (float kernels where tractable)."),
  "C06": ("2.C06", "Integer geometry that makes region-of-interest rendering sound: every resampling/padding/alignment step and the composed padding of the colour stage contain the dependency footprint of every requested pixel, for all rectangles and stage selections within bounds; group partition of the sample grid. Pixel equality of renders is outside."),
  "C15": ("2.C15", "Orientation maps of the interleaved frame buffer and of the sample stream against the specification's map for all 8 orientations and partly-outside copy regions, equality of stream and buffer, and the integer output conversions (rounding, clamping, 8/16-bit fast paths) for every sample value; on 3x2 pixels."),
+ "C16": ("2.C16", "Generic (scalar) path only, small sizes: the real 2-D driver dct_2d_generic with the recursive 1-D kernels is run on every unit impulse of the 4x4 (quick) and 8x8 (thorough) inverse DCT and of the 2x2/2x1 butterflies and compared with the cosine-sum definition evaluated in double precision (table generated from the formula), within 1e-5 absolute per unit coefficient; linearity of the kernels (only +,-,* by constants) carries impulses to blocks up to float rounding, which is not decided. Sizes above 8, non-DCT transforms, LF injection and all x86 vector code are outside."),
  "C17": ("2.C17", "Units of JPEG reconstruction: MSB-first bit packing with 0xFF byte stuffing across buffer flushes equals the T.81 rule for all bit values; canonical Huffman code assignment and lookup failure; APP marker records of hostile reconstruction data are rejected or give total size queries. Byte-exact whole files are outside."),
  "C18": ("2.C18", "Units of ICC decoding against ISO/IEC 18181-1 Annex E: context function (all inputs), header prediction table (all positions and contents), 2- and 4-way shuffles (lengths 1..9; ragged 4-way lengths only where the reading is unambiguous), header-only profiles through decode_icc. Command interpreter beyond the header is outside."),
  "C09": ("2.C09", "Container level only: the one-step harnesses of C10 are quantified over every buffer length (1..=20 bytes offered from every valid parser state), so a step on a short chunk is specified for every cut of the next bytes: it either reports need-more-data with the bytes it consumed or the same event the long chunk gives up to the cut (finding F01 was exactly a cut-dependent result). Frame::feed_bytes and the JxlImage carry-over are not encoded."),
@@ -29,14 +30,14 @@ CLAIMED = {
 NA = {
  "C07": "quantifier is thread schedules and pool sizes; Kani/CBMC do not model threads, rayon or relaxed atomics, and no sequential unit decides schedule independence (the disjoint-partition premise is checked under C02)",
  "C08": "symbolic execution of the real render handle (state.rs / RenderedImage::blend) does not finish: every assignment to FrameRender<S> expands the drop glue of InProgress(Box<RenderCache<S>>) (LfGlobal, HfGlobal, HashMap<LfGroup>): >15 min in symex with all outcomes concrete and unwind 2 (harness kept in harness/src/c_render.rs, not compiled). The defect this property is about was found by reading and confirmed natively (finding F03, fixed).",
- "C16": "not built yet (planned: small DCTs bit-precise vs cosine sums, DESIGN 2.C16)",
- "C19": "not built yet (planned: integer-level facts only; transcendental curves are outside CBMC's reach, DESIGN 2.C19)",
+ "C19": "the property is about floating-point transfer curves (powf/exp/log via libm), ICC synthesis into a heap byte vector and tolerance parsing back: CBMC has no model of the transcendental functions (they become nondeterministic, so any equality/monotonicity claim would be unsound or vacuous) and symbolic-by-symbolic f32 products did not finish in the probes made for C05/C16; no integer-level unit of this property carries its meaning",
  "C20": "quantifier is thread interleavings; Kani/CBMC do not model threads, and the sequentialised monitor obligations need the same render-handle harness as C08, whose symbolic execution does not finish (see C08).",
 }
+import subprocess
 try:
-    exec(open(os.path.join(V, "bin", "manifest_table.py")).read())
-except FileNotFoundError:
-    pass
+    HOOK_COMMITS = [l.split()[0] for l in subprocess.run(["git", "-C", "/repo", "log", "--format=%h %s"], capture_output=True, text=True).stdout.splitlines() if " verif hook " in " " + l.split(" ", 1)[1] + " " and l.split(" ", 1)[1].startswith("verif hook")][::-1]
+except Exception:
+    HOOK_COMMITS = []
 
 m = {
  "version": 1,
@@ -45,7 +46,7 @@ m = {
   "guard": "--cfg jxl_oxide_verif",
   "enable": "RUSTFLAGS='--cfg jxl_oxide_verif' (set by bin/check for cargo kani; reaches the path-dependency crates under /repo/crates)",
   "baseline_off_cmd": "cd /repo && cargo test --workspace --no-fail-fast --offline",
-  "source_commits": HOOK_COMMITS if 'HOOK_COMMITS' in dir() else [],
+  "source_commits": HOOK_COMMITS,
   "add_only": True,
  },
  "engines": [
